@@ -28,6 +28,9 @@ CLAIMS = {
  "C09": ("model_checking",
    "Histories of 2 (thorough 3) operations over a pool of live handles: every operation (append, append twice, set, reverse, + on either side, top, skip, map, order, first as partial consumption, eval; for maps put, put twice, replace, +, eval, map, accept) is a one-operation generated function applied to a chosen existing handle; a purely functional model of symbolic values says what each handle must contain; after the history (and in a second mode after every step) every handle is observed through the public API (ToSlice, Size, Get, Iter): size, elements/keys and values must equal the model for EVERY element value (symbolic 64-bit ints). Enumerated by sym.Choice: operations, parent of each step, representation of the host-supplied parent (literal with 0..3 spare capacity in its backing array, lazily produced, produced by append), observation mode. Plus 9 programs binding lists/maps to names (constant-folded, lazily produced, ordered) whose three evaluations are compared with the reference evaluator.",
    "list length 2 at creation, history length bound, key pool of 4; spec-level capacities beyond the real runtime's growth policy are not explored (the engine uses the runtime's own append growth for 16-byte elements)"),
+ "C10": ("model_checking",
+   "22 programs (constants that are lazy lists, ordered/appended lists, maps, closures, recursion, try, switch, nested pipelines) evaluated in six sequence patterns chosen by sym.Choice - f(x) f(y) f(x); f(x), failing evaluations with wrong-typed and too few arguments, f(x); f(x), half-consumed f(y), f(x); f(x), other Generate calls (valid, syntactically invalid, the same program again) and evaluations on the same generator, f(x); f(y) f(y) f(x) f(x); dropped result - with two independent SYMBOLIC argument tuples x and y: every evaluation equals the first evaluation with the same tuple (self-composition) and the reference evaluator, lazy results of early evaluations being forced only after all later evaluations.",
+   "sequence length <= 5; arguments are ints (first one in 0..7 where it is used structurally); random programs only in the thorough tier"),
  "C12": ("model_checking",
    "Quiescence monitor of the engine's deterministic scheduler: after Parse/Generate/Eval returned, all goroutines are run to completion; a goroutine that stays blocked or is still running after 2M steps is a leak. Inputs: every way parsing can stop (N<=1/2 symbolic bytes, all truncations of 4 programs, byte mutations) and 10 pipelines with early-stopping consumers/failing elements over an effectively unbounded source with a symbolic argument. Counterexamples are confirmed natively by goroutine counts after a grace period.",
    "one call per path (accumulation over thousands of calls follows from one leaked goroutine per call); schedules: the deterministic baton schedule only; known finding: merge producers of the read-only iterator dependency"),
@@ -40,6 +43,9 @@ CLAIMS = {
  "C15": ("model_checking",
    "Parser[string] with comments enabled (comfort on/off): for 4 programs (operators, calls, index, member, method, closure, string, quoted identifier, float) the separator between one pair of adjacent tokens is SYMBOLIC - kind by sym.Choice (nothing where punctuation allows, two blanks, line comment, tight block comment, spaced block comment followed by a line comment) with symbolic contents over {blank TAB CR LF} resp. {x * / quote apostrophe LF} - all other separators one blank: the AST equals the one of the canonical and of the one-token-per-line layout, every node reports the line of its anchor token (1 + number of LF bytes before it, the anchor taken from the one-token-per-line parse), a syntax error behind the program reports the line of the offending token; string literals of n<=2 (thorough 3) symbolic runes over all of Unicode written with the escapes \\ \" \n \r \t denote exactly that string, quoted identifiers their content; the typographic aliases and superscripts equal their ASCII spelling; comfort-mode juxtapositions number/identifier/')' x number/identifier/'(' in four contexts equal the explicit product, identifier+'(' stays a call.",
    "one symbolic separator per job (two in none); separator contents of 2 bytes; the layout oracle for 'no separator' is restricted to pairs with punctuation on one side; keywords (let/if/...) layouts are not varied"),
+ "C16": ("translation_validation",
+   "34 programs whose free identifiers x, y, z, f (f holds a closure) are attributes - at top level, inside 1..3 nested closures, recursive and nested funcs, lets inside call arguments and list elements, curried closures, list pipelines; attributes shadowed by closure parameters, lets, func parameters and constants (pi), next to static functions and to explicit uses of the map name m - are parsed by the harness's own parser, every free identifier is rewritten to m.<name> and the program printed as exp'; GenerateWithMap(exp,\"m\") and Generate(exp',\"m\") are evaluated on the same argument map with SYMBOLIC attribute values in five representations (literal, put chain, merged, replaced, evaluated): both generate or neither, equal outcome for every value.",
+   "program pool fixed; attribute values ints (x in 0..5) and one closure; the rewriting oracle knows the static functions it uses by name"),
  "C17": ("model_checking",
    "The bytes written by export.JSON() for value trees containing strings/keys of n symbolic runes (every Unicode scalar value; n<=2 quick, <=3 thorough) are read by a strict RFC 8259 reference reader executed on the symbolic output: the document is valid and decodes to the expected structure (arrays in order, objects as key sets, scalars as the JSON string of their string form). Trees: scalar, list, key, value, two symbolic keys (sorting), lazy lists, nested, mixed concrete scalars, maps in merged/replaced/mapped/accepted representation.",
    "string length bound; numbers/bools concrete; reference reader trusted (cross-checked against encoding/json natively on every replay)"),
